@@ -52,10 +52,16 @@ def main():
                     bad += 1
                     continue
                 open(p, 'w').write(s.replace(old, new))
-                r = subprocess.run([sys.executable, os.path.join(HERE, 'check.py'), prop, '--repo', scratch,
-                                    '--unit', u.name, '--no-evidence'], capture_output=True, text=True,
-                                   env=dict(os.environ, VERIF_REPLAY_DIR=os.path.join(scratch, 'replays')))
-                got = {0: 'ok', 1: 'violation', 2: 'undecided'}.get(r.returncode, 'error')
+                codes = []
+                for prop in u.props:
+                    r = subprocess.run([sys.executable, os.path.join(HERE, 'check.py'), prop, '--repo', scratch,
+                                        '--unit', u.name, '--no-evidence'], capture_output=True, text=True,
+                                       env=dict(os.environ, VERIF_REPLAY_DIR=os.path.join(scratch, 'replays')))
+                    codes.append(r.returncode)
+                    if r.returncode == 1:
+                        break
+                rc = 1 if 1 in codes else (2 if 2 in codes else max(codes))
+                got = {0: 'ok', 1: 'violation', 2: 'undecided'}.get(rc, 'error')
                 status = 'PASS' if got == expect else 'FAIL'
                 if got != expect:
                     bad += 1
